@@ -37,6 +37,7 @@ from common import Coverage, Driver, coq_eval, hx, rng, unhx, violation
 from ref import findref
 
 HAP_TCP = "_hap._tcp.local."
+HAP_UDP = "_hap._udp.local."
 TAU = {"S": 8, "L": 16}      # waiter timeouts (ticks); never congruent to 0 mod DELTA, so an event
 DELTA = 5                    # never coincides with a deadline
 FLUSH = 64
@@ -54,12 +55,33 @@ def txt_of(pairs):
     return out
 
 
-def svc_args(idx, sn, variant):
-    """-> (name, type, [packed addrs], port, txt) for id index idx.
+# What the g-th catalogue advertisement of a transport ADVERTISES.  The numbers are deliberately NOT monotone in g
+# (a schedule uses g = position): the configuration number is 8 bit and the BLE state number 16 bit, both wrap
+# (65535 -> 1) and restart after a factory reset (sf becomes 1), so every direction of change of (c#, s#) between
+# two advertisements of one id occurs: c# same / s# wraps down, both down, c# down / s# up, c# up / s# down ...
+# s# (and the pair) stays unique per g and across the two transports, so "completed with THAT discovery" is observable.
+M_NUMS = dict(cn=[5, 2, 2, 9, 1, 1, 7, 3], sn=[3, 6, 1, 7, 2, 5, 0, 4], sf=[0, 1, 1, 0, 0, 1, 0, 1], ci=[5, 5, 7, 2, 17, 17, 1, 5])
+B_NUMS = dict(cn=[4, 4, 4, 255, 8, 8, 6, 0], sn=[65534, 65535, 1, 256, 255, 2, 40000, 0], sf=[0, 0, 0, 1, 1, 0, 1, 1],
+              ci=[5, 5, 7, 7, 65535, 1, 256, 5])
+
+
+def nums(tr, g):
+    """-> dict cn, sn, sf, ci advertised by catalogue index g of transport tr ('m' | 'b')"""
+    t = M_NUMS if tr == "m" else B_NUMS
+    if g < 8:
+        return {k: v[g] for k, v in t.items()}
+    return dict(cn=g + 1, sn=g, sf=0, ci=5)
+
+
+def svc_args(idx, sn, variant, ty=None):
+    """-> (name, type, [packed addrs], port, txt) for id index idx; sn = catalogue index g (selects the spelling
+    variants; the advertised numbers are nums('m', g)).
     variant: v | noid | linklocal | badint, and the forms that share the TXT rdata of v<sn>: n | l | p"""
+    ty = ty or HAP_TCP
+    nm = nums("m", sn)
     idtxt = IDS[idx].upper().encode() if sn % 2 == 0 else IDS[idx].encode()
-    pairs = [(b"c#", b"%d" % (sn + 1)), (b"id" if (sn % 3 or variant == "linklocal") else b"ID", idtxt), (b"md", b"unit"), (b"s#", b"%d" % sn),
-             (b"ci", b"5"), (b"sf", b"0")]
+    pairs = [(b"c#", b"%d" % nm["cn"]), (b"id" if (sn % 3 or variant == "linklocal") else b"ID", idtxt), (b"md", b"unit"), (b"s#", b"%d" % nm["sn"]),
+             (b"ci", b"%d" % nm["ci"]), (b"sf", b"%d" % nm["sf"])]
     if sn % 4 == 2:
         # bytes that are not UTF-8 in fields validity does not depend on: a Latin-1 model name, an unknown binary attribute
         pairs[2] = (b"md", b"Caf\xe9 Lamp")
@@ -84,12 +106,13 @@ def svc_args(idx, sn, variant):
     elif variant == "badint":
         pairs[3] = (b"s#", b"1x")
     # instance names as real accessories announce them: mixed case, with spaces
-    return ("Dev%d Living Room Lamp.%s" % (idx, HAP_TCP)).encode(), HAP_TCP.encode(), addrs, port, txt_of(pairs)
+    return ("Dev%d Living Room Lamp.%s" % (idx, ty)).encode(), ty.encode(), addrs, port, txt_of(pairs)
 
 
 def mfr_of(idx, sn, variant):
     """manufacturer data (or None) for id index idx.  variant: v | short | type | noapple | empty"""
-    data = b"\x06\x31\x01" + DEVS[idx] + struct.pack("<HHBB", 5, sn, (sn + 1) & 0xFF, 2) + b"\x10\x20\x30\x40"
+    nb = nums("b", sn)
+    data = bytes([0x06, 0x31, nb["sf"]]) + DEVS[idx] + struct.pack("<HHBB", nb["ci"], nb["sn"], nb["cn"] & 0xFF, 2) + b"\x10\x20\x30\x40"
     if variant == "short":
         return data[:14]
     if variant == "type":
@@ -121,14 +144,20 @@ def catalogue():
     cat = {}
     for idx in (0, 1):
         for sn in range(8):
-            cat[f"m{idx}v{sn}"] = dict(tr="m", args=svc_args(idx, sn, "v"), valid=True, id=IDS[idx], cn=sn + 1, sn=sn)
-            cat[f"b{idx}v{sn}"] = dict(tr="b", md=mfr_of(idx, sn, "v"), valid=True, id=IDS[idx], cn=(sn + 1) & 0xFF, sn=sn, idx=idx)
+            nm, nb = nums("m", sn), nums("b", sn)
+            mk = dict(cn=nm["cn"], sn=nm["sn"], sf=nm["sf"], ci=nm["ci"])
+            cat[f"m{idx}v{sn}"] = dict(tr="m", args=svc_args(idx, sn, "v"), valid=True, id=IDS[idx], **mk)
+            cat[f"b{idx}v{sn}"] = dict(tr="b", md=mfr_of(idx, sn, "v"), valid=True, id=IDS[idx], cn=nb["cn"] & 0xFF, sn=nb["sn"],
+                                       sf=nb["sf"], ci=nb["ci"], idx=idx)
             # one service name, same TXT rdata, different completeness / endpoint
-            cat[f"m{idx}p{sn}"] = dict(tr="m", args=svc_args(idx, sn, "p"), valid=True, id=IDS[idx], cn=sn + 1, sn=sn)
+            cat[f"m{idx}p{sn}"] = dict(tr="m", args=svc_args(idx, sn, "p"), valid=True, id=IDS[idx], **mk)
             cat[f"m{idx}n{sn}"] = dict(tr="m", args=svc_args(idx, sn, "n"), valid=False, id=IDS[idx], cn=0, sn=0)
             cat[f"m{idx}l{sn}"] = dict(tr="m", args=svc_args(idx, sn, "l"), valid=False, id=IDS[idx], cn=0, sn=0)
+            # the same records announced on _hap._udp (what a CoAPController processes)
+            cat[f"u{idx}v{sn}"] = dict(tr="m", args=svc_args(idx, sn, "v", HAP_UDP), valid=True, id=IDS[idx], **mk)
         for j, var in enumerate(MDNS_BAD):
             cat[f"m{idx}i{j}"] = dict(tr="m", args=svc_args(idx, 9, var), valid=False, id=IDS[idx], cn=0, sn=0)
+            cat[f"u{idx}i{j}"] = dict(tr="m", args=svc_args(idx, 9, var, HAP_UDP), valid=False, id=IDS[idx], cn=0, sn=0)
         for j, var in enumerate(BLE_BAD):
             cat[f"b{idx}i{j}"] = dict(tr="b", md=mfr_of(idx, 9, var), valid=False, id=IDS[idx], cn=0, sn=0, idx=idx)
     return cat
@@ -343,18 +372,14 @@ class Rig:
         return " / ".join(out)
 
     def endpoints(self):
-        """id:address:port:c#:s# of every mDNS discovery (what a connection would be made to)"""
-        if self.kind == "ble":
-            return "-"
-        out = []
-        for k, v in self.ip.discoveries.items():
-            d = v.description
-            try:
-                adr = ipaddress.ip_address(str(d.address).split('%')[0]).packed.hex()
-            except Exception:  # noqa
-                adr = "other:addr:" + type(d.address).__name__
-            out.append(f"{hx(str(k).encode())}:{adr}:{_ti(d.port, 'port')}:{_ti(d.config_num, 'cn')}:{_ti(d.state_num, 'sn')}")
-        return ",".join(sorted(out)) or "-"
+        """what controller.discoveries reports per id.  mDNS: id:address:port:c#:s#:sf:ci (what a connection would be
+        made to); BLE: id:c#:s#:sf:ci.  Aggregate: 'ip-part / ble-part'."""
+        parts = []
+        if self.kind != "ble":
+            parts.append(_mdns_contents(self.ip))
+        if self.kind != "mdns":
+            parts.append(_ble_contents(self.ble))
+        return " / ".join(parts)
 
     async def stop(self):
         for p in self.loaded:
@@ -366,6 +391,29 @@ class Rig:
             await self.ctrl.async_stop()
         except Exception:  # noqa
             pass
+
+
+def _mdns_contents(ctrl):
+    out = []
+    for k, v in ctrl.discoveries.items():
+        d = v.description
+        try:
+            adr = ipaddress.ip_address(str(d.address).split('%')[0]).packed.hex()
+        except Exception:  # noqa
+            adr = "other:addr:" + type(getattr(d, "address", None)).__name__
+        out.append(f"{hx(str(k).encode())}:{adr}:{_ti(getattr(d, 'port', None), 'port')}:{_ti(getattr(d, 'config_num', None), 'cn')}"
+                   f":{_ti(getattr(d, 'state_num', None), 'sn')}:{_ti(getattr(d, 'status_flags', None), 'sf')}"
+                   f":{_ti(getattr(d, 'category', None), 'ci')}")
+    return ",".join(sorted(out)) or "-"
+
+
+def _ble_contents(ctrl):
+    out = []
+    for k, v in ctrl.discoveries.items():
+        d = v.description
+        out.append(f"{hx(str(k).encode())}:{_ti(getattr(d, 'config_num', None), 'cn')}:{_ti(getattr(d, 'state_num', None), 'sn')}"
+                   f":{_ti(getattr(d, 'status_flags', None), 'sf')}:{_ti(getattr(d, 'category', None), 'ci')}")
+    return ",".join(sorted(out)) or "-"
 
 
 def _busy(loop):
@@ -495,16 +543,24 @@ def run_impl(kind, scheds, objs=None, want_ep=False):
 
 
 def expected_endpoints(kind, events):
-    """reference: the discovery of an id shows the first usable address, the port and the c#/s# of the LATEST
-    valid mDNS record processed for it"""
-    if kind == "ble":
-        return "-"
-    ep = {}
+    """reference (independent of the model): the discovery of an id shows what the LATEST valid advertisement
+    processed for it on that transport advertised - mDNS: first usable address, port, c#, s#, sf, ci; BLE: c#, s#, sf,
+    category - however these numbers compare with the ones seen before (they wrap and restart)"""
+    ep, bl = {}, {}
     for ev in events:
-        if ev[0] in ("A", "Ab") and ev[1] in CAT and CAT[ev[1]]["tr"] == "m" and CAT[ev[1]]["valid"]:
-            _, _, addrs, port, _ = CAT[ev[1]]["args"]
-            ep[CAT[ev[1]]["id"]] = (findref.ref_addresses(list(addrs))[0], port, CAT[ev[1]]["cn"], CAT[ev[1]]["sn"])
-    return ",".join(sorted(f"{hx(i.encode())}:{a.hex()}:{p}:{cn}:{sn}" for i, (a, p, cn, sn) in ep.items())) or "-"
+        if ev[0] in ("A", "Ab") and ev[1] in CAT and CAT[ev[1]]["valid"]:
+            c = CAT[ev[1]]
+            if c["tr"] == "m":
+                _, _, addrs, port, _ = c["args"]
+                ep[c["id"]] = (findref.ref_addresses(list(addrs))[0], port, c["cn"], c["sn"], c["sf"], c["ci"])
+            else:
+                bl[c["id"]] = (c["cn"], c["sn"], c["sf"], c["ci"])
+    parts = []
+    if kind != "ble":
+        parts.append(",".join(sorted(f"{hx(i.encode())}:{a.hex()}:{p}:{cn}:{sn}:{sf}:{ci}" for i, (a, p, cn, sn, sf, ci) in ep.items())) or "-")
+    if kind != "mdns":
+        parts.append(",".join(sorted(f"{hx(i.encode())}:{cn}:{sn}:{sf}:{ci}" for i, (cn, sn, sf, ci) in bl.items())) or "-")
+    return " / ".join(parts)
 
 
 # ================================================================ model side
@@ -756,8 +812,13 @@ def classify(kind, events, impl, model, ep=None):
     if ep is not None and ep != "?":
         want_ep = expected_endpoints(kind, events)
         if ep != want_ep:
-            probs.append((f"sched:{kind}:stale-endpoint",
-                          f"{kind}: discoveries must point at the latest valid record ({want_ep}) but point at {ep}", True))
+            gp, wp = ep.split(" / "), want_ep.split(" / ")
+            names = {"mdns": ["endpoint"], "ble": ["discovery"], "agg": ["endpoint", "discovery"]}[kind]
+            for nm, g1, w1 in zip(names, gp + ["?"] * len(wp), wp):
+                if g1 != w1:
+                    probs.append((f"sched:{kind}:stale-{nm}",
+                                  f"{kind}: discoveries must show what the latest valid advertisement of each id advertised "
+                                  f"({w1}) but show {g1}", True))
     if not probs and impl_s != model_b:
         probs.append((f"sched:{kind}:model-mismatch", f"{kind}: implementation {impl_s} != model {model_b}", False))
     return probs
@@ -787,7 +848,7 @@ def sched_job(job):
         want = ";".join(f"{k}={exp[k]}" for k in sorted(exp))
         if not amb and got != want:
             fine = False
-        if kind != "ble" and ep != expected_endpoints(kind, evs):
+        if ep != expected_endpoints(kind, evs):
             fine = False
         for cell in got.split(";"):
             if cell:
@@ -1006,6 +1067,404 @@ def run_extra_stream(ctx, cov, viols):
                                        events=[list(e) for e in evs], impl=i, model=m, endpoints=ep,
                                        expected_endpoints=expected_endpoints(kind, evs),
                                        advertisements={e[1]: _adv_repr(e[1]) for e in evs if e[0] in ("A", "Ab")}))
+
+
+# ================================================================ several controllers alive in ONE process
+# The aggregate Controller owns an IpController (_hap._tcp), a CoAPController (_hap._udp) - both ZeroconfController,
+# sharing one zeroconf instance - and a BleController; applications also run several controllers of one class.
+# Model/FindWorld.v: a world is a list of controllers with their OWN tables; controller j behaves exactly as on
+# its own history (controllers_in_one_process_do_not_interfere).  Here: the real controllers of a world live on
+# one loop, events are addressed to one of them, every controller is judged on ITS projection of the history by
+# the reference, the model and the discovery-contents rule.
+WORLDS = {
+    "ip+coap": [("ip", 0), ("coap", 0)],               # as the aggregate builds them: one zeroconf instance
+    "ip+ip": [("ip", 0), ("ip", 1)],                   # two controllers on their own zeroconf instances
+    "ip+ip-shared": [("ip", 0), ("ip", 0)],            # two controllers on one zeroconf instance
+    "coap+coap": [("coap", 0), ("coap", 1)],
+    "ble+ble": [("ble", None), ("ble", None)],
+    "ip+coap+ble": [("ip", 0), ("coap", 0), ("ble", None)],
+}
+W_PREFIX = {"ip": "m", "coap": "u", "ble": "b"}
+W_MODEL = {"ip": "mdns", "coap": "mdns", "ble": "ble"}
+W_CLASS = {"ip": "IpDiscovery", "coap": "CoAPDiscovery", "ble": "BleDiscovery"}
+W_TYPE = {"m": HAP_TCP, "u": HAP_UDP}
+
+
+def _discs_of(ctrl):
+    return ",".join(sorted(f"{hx(str(k).encode())}:{_ti(getattr(v.description, 'config_num', None), 'cn')}"
+                           f":{_ti(getattr(v.description, 'state_num', None), 'sn')}" for k, v in ctrl.discoveries.items())) or "-"
+
+
+async def exec_world(loop, world, events, objs):
+    """events: ("F",c,k,id,tau) ("A",c,sym) ("Ab",c,sym) ("C",k) ("Cq",k) ("T",delta) ("X",c).
+    -> [(canonical result, discovery contents)] per controller of the world"""
+    from aiohomekit.characteristic_cache import CharacteristicCacheMemory
+    from aiohomekit.exceptions import AccessoryNotFoundError
+    spec = WORLDS[world]
+    zcs, ctls = {}, []
+    for ck, z in spec:
+        cache = CharacteristicCacheMemory()
+        if ck == "ble":
+            from aiohomekit.controller.ble.controller import BleController
+            ctl = BleController(cache)
+        else:
+            azc = zcs.setdefault(z, _FakeAsyncZeroconf())
+            if ck == "ip":
+                from aiohomekit.controller.ip.controller import IpController
+                ctl = IpController(char_cache=cache, zeroconf_instance=azc)
+            else:
+                from aiohomekit.controller.coap.controller import CoAPController
+                ctl = CoAPController(char_cache=cache, zeroconf_instance=azc)
+        await ctl.async_start()
+        ctls.append(ctl)
+    n = len(ctls)
+    t0 = loop.ticks
+    res, raised, tasks, owner = [dict() for _ in range(n)], [[] for _ in range(n)], {}, {}
+    ticks = vloop.TICKS
+
+    async def waiter(c, k, wid, tau):
+        try:
+            d = await ctls[c].async_find(wid, tau / ticks)
+            desc = d.description
+            own = type(d).__name__ == W_CLASS[spec[c][0]] and getattr(d, "controller", None) is ctls[c]
+            res[c][k] = "%s:%s:%s:%s:%d" % ("found" if own else "foundforeign-" + type(d).__name__, hx(str(desc.id).encode()),
+                                            _ti(desc.config_num, "cn"), _ti(desc.state_num, "sn"), loop.ticks - t0)
+        except AccessoryNotFoundError:
+            res[c][k] = "notfound:%d" % (loop.ticks - t0)
+        except asyncio.CancelledError:
+            res[c][k] = "cancelled:%d" % (loop.ticks - t0)
+        except BaseException as e:  # noqa
+            res[c][k] = "other-%s:%d" % (type(e).__name__, loop.ticks - t0)
+
+    for idx, ev in enumerate(events):
+        op = ev[0]
+        nerr = len(loop.errors)
+        blame = ev[1] if op in ("F", "A", "Ab", "X") else None
+        try:
+            if op == "F":
+                tasks[ev[2]] = loop.create_task(waiter(ev[1], ev[2], ev[3], ev[4]))
+                owner[ev[2]] = ev[1]
+            elif op == "A":
+                if spec[ev[1]][0] == "ble":
+                    ctls[ev[1]]._scanner.cb(*objs[ev[2]])
+                else:
+                    ctls[ev[1]]._async_handle_loaded_service_info(objs[ev[2]])
+            elif op == "Ab":
+                from zeroconf import ServiceStateChange
+                info = objs[ev[2]]
+                _scripted[info.name] = info
+                zc = ctls[ev[1]]._async_zeroconf_instance.zeroconf
+                for h in list(zc.listeners[0]._handlers):
+                    h(zeroconf=zc, service_type=info.type, name=info.name, state_change=ServiceStateChange.Added)
+            elif op in ("C", "Cq"):
+                if ev[1] in tasks:
+                    tasks[ev[1]].cancel()
+            elif op == "T":
+                await vloop.sleep_ticks(ev[1])
+            elif op == "X":
+                await ctls[ev[1]].async_stop()
+        except vloop.Stalled:
+            raise
+        except Exception as e:  # noqa
+            if blame is not None:
+                raised[blame].append("%d:%s" % (idx, type(e).__name__))
+        if op == "Ab":
+            await vloop.sleep_ticks(2048)
+        if op != "Cq":
+            await settle(loop)
+        for ctx in loop.errors[nerr:]:
+            for c in ([blame] if blame is not None else range(n)):
+                raised[c].append("%d:%s" % (idx, type(ctx.get("exception")).__name__))
+    await settle(loop)
+    for k, t in tasks.items():
+        if not t.done():
+            res[owner[k]].setdefault(k, "pending")
+            t.cancel()
+    out = []
+    for c, ctl in enumerate(ctls):
+        cont = _ble_contents(ctl) if spec[c][0] == "ble" else _mdns_contents(ctl)
+        out.append((canon(res[c], raised[c], _discs_of(ctl)), cont))
+    for ctl in ctls:
+        try:
+            await ctl.async_stop()
+        except Exception:  # noqa
+            pass
+    await settle(loop)
+    return out
+
+
+def world_proj(world, c, events):
+    """the history of controller c alone (same length as the world history: foreign events become 'the loop runs')"""
+    spec = WORLDS[world]
+    owner, out, stopped = {}, [], set()
+    for ev in events:
+        op = ev[0]
+        if op == "X":
+            stopped.add(ev[1])
+        if c in stopped and op in ("A", "Ab"):       # a stopped controller has unregistered its browser handler
+            out.append(("T", 2048 if op == "Ab" else 0))
+        elif op == "F":
+            owner[ev[2]] = ev[1]
+            out.append(("F", ev[2], ev[3], ev[4]) if ev[1] == c else ("T", 0))
+        elif op == "A":
+            out.append(("A", ev[2]) if ev[1] == c else ("T", 0))
+        elif op == "Ab":
+            # every controller registered with that zeroconf instance gets the browser event; it looks at its own type only
+            same_zc = spec[c][0] != "ble" and spec[c][1] == spec[ev[1]][1]
+            mine = same_zc and W_TYPE[ev[2][0]] == W_TYPE[W_PREFIX[spec[c][0]]]
+            out.append(("Ab", ev[2]) if mine else ("T", 2048))
+        elif op in ("C", "Cq"):
+            out.append((op, ev[1]) if owner.get(ev[1]) == c else ("T", 0))
+        elif op == "T":
+            out.append(ev)
+        else:
+            out.append(("T", 0))
+    return out
+
+
+def run_world_impl(world, scheds):
+    out = []
+    with Patches():
+        objs = impl_objects()
+        for i in range(0, len(scheds), 300):
+            part = scheds[i:i + 300]
+
+            async def main(loop, part=part):
+                for evs in part:
+                    try:
+                        r = await exec_world(loop, world, evs, objs)
+                    except vloop.Stalled:
+                        raise
+                    except Exception as e2:  # noqa
+                        r = [("harness-error:%s:%s||" % (type(e2).__name__, str(e2)[:80].replace("|", "/")), "?")] * len(WORLDS[world])
+                    out.append(r)
+            vloop.run(main)
+    return out
+
+
+def world_classify(world, evs, impl_row, model_row):
+    """-> [(key, what, found_input, controller index)]"""
+    spec = WORLDS[world]
+    probs = []
+    for c, (ck, _) in enumerate(spec):
+        (i, ep), m = impl_row[c], model_row[c]
+        pe = world_proj(world, c, evs)
+        # (a discovery of another controller / class handed to a caller shows as outcome 'foundforeign-<class>')
+        for key, what, found in classify(W_MODEL[ck], pe, i, m, ep):
+            key = key.replace("sched:" + W_MODEL[ck], f"multi:{world}:{ck}{c}")
+            probs.append((key, f"world {world}, controller {c} ({ck}): " + what, found, c))
+    return probs
+
+
+def expand_world(world, prefix, depth):
+    """all world histories of exactly `depth` events extending prefix, then a flush.  Alphabet per position: a caller
+    starts on controller c for id 1 (timeout 8|16); controller c processes a valid advertisement for id 1 / for id 2 /
+    an invalid one; a waiting caller is cancelled (BLE: also without letting the loop run); 5 ticks pass."""
+    spec = WORLDS[world]
+    out = []
+
+    def rec(evs, nextk, pend, now):
+        pos = len(evs)
+        if pos == depth:
+            out.append(evs + [("T", FLUSH)])
+            return
+        for c, (ck, _) in enumerate(spec):
+            if nextk <= 3:
+                for tau in (TAU["S"], TAU["L"]):
+                    rec(evs + [("F", c, nextk, wid_for(W_MODEL[ck], nextk, 0), tau)], nextk + 1, {**pend, nextk: (c, now + tau)}, now)
+            pre = W_PREFIX[ck]
+            bad = f"b0i{pos % len(BLE_BAD)}" if ck == "ble" else f"{pre}0i{pos % len(MDNS_BAD)}"
+            for sym in (f"{pre}0v{pos}", f"{pre}1v{pos}", bad):
+                p2 = {k: v for k, v in pend.items() if v[0] != c} if sym[1:3] == "0v" else pend
+                rec(evs + [("A", c, sym)], nextk, p2, now)
+        for k in sorted(pend):
+            for cop in (("C", "Cq") if spec[pend[k][0]][0] == "ble" else ("C",)):
+                rec(evs + [(cop, k)], nextk, {a: b for a, b in pend.items() if a != k}, now)
+        rec(evs + [("T", DELTA)], nextk, {k: v for k, v in pend.items() if v[1] > now + DELTA}, now + DELTA)
+
+    nextk, pend, now = 1, {}, 0
+    for ev in prefix:
+        if ev[0] == "F":
+            pend[ev[2]] = (ev[1], now + ev[4])
+            nextk = ev[2] + 1
+        elif ev[0] == "A" and ev[2][1:3] == "0v":
+            pend = {k: v for k, v in pend.items() if v[0] != ev[1]}
+        elif ev[0] in ("C", "Cq"):
+            pend.pop(ev[1], None)
+        elif ev[0] == "T":
+            now += ev[1]
+            pend = {k: v for k, v in pend.items() if v[1] > now}
+    rec(list(prefix), nextk, pend, now)
+    return out
+
+
+def world_directed():
+    """directed world histories: the browser path (one browser event reaches every controller registered with that
+    zeroconf instance), a controller being stopped while the others go on, numbers going down between advertisements"""
+    X = IDS[0]
+    out = []
+    for world, spec in WORLDS.items():
+        n = len(spec)
+        for a in range(n):
+            for b in range(n):
+                if a == b:
+                    continue
+                pa, pb = W_PREFIX[spec[a][0]], W_PREFIX[spec[b][0]]
+                # both wait, only b's transport announces the device
+                out.append((world, [("F", a, 1, X, 16), ("F", b, 2, X, 16), ("A", b, pb + "0v1"), ("T", FLUSH)]))
+                out.append((world, [("F", a, 1, X, 16), ("A", b, pb + "0v1"), ("F", b, 2, X, 16), ("T", 5), ("A", a, pa + "0v2"), ("T", FLUSH)]))
+                out.append((world, [("A", b, pb + "0v1"), ("F", a, 1, X, 8), ("F", b, 2, X, 8), ("T", FLUSH)]))
+                # b is stopped; a goes on (waiters, advertisements, browser debounce timers)
+                out.append((world, [("F", a, 1, X, 16), ("X", b), ("A", a, pa + "0v1"), ("T", FLUSH)]))
+                out.append((world, [("A", a, pa + "0v1"), ("A", a, pa + "0v2"), ("X", b), ("A", a, pa + "0v3"), ("F", a, 1, X, 8), ("T", FLUSH)]))
+                if spec[a][0] != "ble":
+                    out.append((world, [("F", a, 1, X, 16384), ("F", b, 2, X, 16384), ("Ab", a, pa + "0v1"), ("T", 32768)]))
+                    out.append((world, [("F", a, 1, X, 16384), ("X", b), ("Ab", a, pa + "0v1"), ("T", 32768)]))
+                    if spec[b][0] != "ble":
+                        out.append((world, [("F", a, 1, X, 16384), ("F", b, 2, X, 16384), ("Ab", a, pa + "0v1"), ("Ab", b, pb + "0v2"),
+                                            ("Ab", a, pa + "0v3"), ("T", 32768)]))
+        # every ordered pair of catalogue indexes on each controller, the other one watching: numbers go up and down
+        for c in range(n):
+            pc = W_PREFIX[spec[c][0]]
+            o = (c + 1) % n
+            for g1 in range(8):
+                for g2 in range(8):
+                    if g1 != g2:
+                        out.append((world, [("F", o, 1, X, 16), ("A", c, f"{pc}0v{g1}"), ("A", c, f"{pc}0v{g2}"), ("F", c, 2, X, 8), ("T", FLUSH)]))
+    return out
+
+
+def world_job(job):
+    world, prefix, depth, exe = job
+    scheds = expand_world(world, prefix, depth) if depth is not None else prefix
+    t0 = time.time()
+    impl = run_world_impl(world, scheds)
+    t1 = time.time()
+    drv = Driver(exe, workers=1)
+    spec = WORLDS[world]
+    models = []
+    for c, (ck, _) in enumerate(spec):
+        models.append(run_model(drv, W_MODEL[ck], [world_proj(world, c, evs) for evs in scheds]))
+    summary = dict(n=len(scheds), hist={}, problems={}, samples=[], checked=0, t_impl=t1 - t0, t_model=time.time() - t1)
+    hist = summary["hist"]
+    for j, evs in enumerate(scheds):
+        row_m = [models[c][j] for c in range(len(spec))]
+        fine = True
+        for c, (ck, _) in enumerate(spec):
+            i, ep = impl[j][c]
+            pe = world_proj(world, c, evs)
+            exp = oracle_schedule(W_MODEL[ck], pe)
+            want = ";".join(f"{k}={exp[k]}" for k in sorted(exp))
+            if strip_exc(i) != row_m[c] or i.split("|")[0] != want or ep != expected_endpoints(W_MODEL[ck], pe):
+                fine = False
+            for cell in i.split("|")[0].split(";"):
+                if cell:
+                    oc = cell.split("=")[1].split(":")[0]
+                    hist[oc] = hist.get(oc, 0) + 1
+        nf = sorted(ev[1] for ev in evs if ev[0] == "F")
+        na = sorted({ev[1] for ev in evs if ev[0] in ("A", "Ab")})
+        tag = "waiters_on=%s adverts_on=%s" % ("".join(map(str, nf)) or "-", "".join(map(str, na)) or "-")
+        hist[tag] = hist.get(tag, 0) + 1
+        if not fine:
+            summary["checked"] += 1
+            for key, what, found, c in world_classify(world, evs, impl[j], row_m):
+                old = summary["problems"].get(key)
+                if old is None or len(evs) < len(old["events"]):
+                    summary["problems"][key] = dict(what=what, found_input=found, events=evs, world=world, controller=c,
+                                                    count=(1 if old is None else old["count"] + 1))
+                else:
+                    old["count"] += 1
+    if scheds:
+        j = hash(str(prefix)) % len(scheds)
+        summary["samples"].append(dict(stream="multi", world=world, events=[list(e) for e in scheds[j]], impl=[x[0] for x in impl[j]]))
+    return summary
+
+
+def world_probe(world, evs, exe):
+    impl = run_world_impl(world, [evs])[0]
+    drv = Driver(exe, workers=1)
+    models = [run_model(drv, W_MODEL[ck], [world_proj(world, c, evs)])[0] for c, (ck, _) in enumerate(WORLDS[world])]
+    return impl, models, world_classify(world, evs, impl, models)
+
+
+def shrink_world(world, events, key, exe):
+    cur = list(events)
+    i = 0
+    while i < len(cur) - 1:
+        cand = cur[:i] + cur[i + 1:]
+        started = set()
+        ok = True
+        for e in cand:
+            if e[0] == "F":
+                started.add(e[2])
+            elif e[0] in ("C", "Cq") and e[1] not in started:
+                ok = False
+        if ok and any(k == key for k, _, _, _ in world_probe(world, cand, exe)[2]):
+            cur = cand
+        else:
+            i += 1
+    return cur
+
+
+def run_world_stream(ctx, cov, viols, timing):
+    tier, exe = ctx["tier"], ctx["driver"]
+    t0 = time.time()
+    jobs = []
+    for world, spec in WORLDS.items():
+        depth = (4 if world in ("ip+coap", "ble+ble") else 3) + (1 if tier != "quick" else 0)
+        for pre in expand_world(world, [], 1):
+            jobs.append((world, pre[:-1], depth, exe))
+    directed = world_directed()
+    by_world = {}
+    for world, evs in directed:
+        by_world.setdefault(world, []).append(evs)
+    for world, lst in by_world.items():
+        jobs.append((world, lst, None, exe))
+    probs, tot = {}, {}
+    with multiprocessing.get_context("fork").Pool(WORKERS) as pool:
+        for (world, pre, depth, _), s in zip(jobs, pool.imap(world_job, jobs, chunksize=1)):
+            tot[world] = tot.get(world, 0) + s["n"]
+            cov.evaluations += s["n"]
+            base = cov.extra.get("_nextw", 0)
+            cov._distinct.update(("w", x) for x in range(base, base + s["n"]))
+            cov.extra["_nextw"] = base + s["n"]
+            for k, v in s["hist"].items():
+                cov.hist["multi_" + world][k] += v
+            for smp in s["samples"]:
+                if sum(1 for x in cov.samples if x.get("stream") == "multi") < 3:
+                    cov.samples.append(smp)
+            timing["multi_impl_cpu"] = timing.get("multi_impl_cpu", 0) + s["t_impl"]
+            timing["multi_model_cpu"] = timing.get("multi_model_cpu", 0) + s["t_model"]
+            cov.extra["disagreements_checked"] = cov.extra.get("disagreements_checked", 0) + s["checked"]
+            for key, p in s["problems"].items():
+                old = probs.get(key)
+                if old is None:
+                    probs[key] = p
+                else:
+                    cnt = old["count"] + p["count"]
+                    if len(p["events"]) < len(old["events"]):
+                        probs[key] = p
+                    probs[key]["count"] = cnt
+    cov.extra.pop("_nextw", None)
+    for key, p in sorted(probs.items()):
+        small = shrink_world(p["world"], p["events"], key, exe)
+        impl, models, cl = world_probe(p["world"], small, exe)
+        what = next((w for k2, w, _, _ in cl if k2 == key), p["what"])
+        c = p["controller"]
+        pe = world_proj(p["world"], c, small)
+        exp = oracle_schedule(W_MODEL[WORLDS[p["world"]][c][0]], pe)
+        viols.append(violation(key, what + f" [{p['count']} histories]", p["found_input"], stream="multi", world=p["world"],
+                               controllers=[ck for ck, _ in WORLDS[p["world"]]], events=[list(e) for e in small],
+                               impl=[x[0] for x in impl], discovery_contents=[x[1] for x in impl], model=models,
+                               controller=c, projected_history=[list(e) for e in pe],
+                               expected=";".join(f"{k}={exp[k]}" for k in sorted(exp)),
+                               expected_discovery_contents=expected_endpoints(W_MODEL[WORLDS[p["world"]][c][0]], pe),
+                               advertisements={e[2]: _adv_repr(e[2]) for e in small if e[0] in ("A", "Ab")},
+                               **({} if p["found_input"] else dict(broken="correspondence Model/FindWorld.v <-> controllers sharing a process"))))
+    timing["multi_wall"] = round(time.time() - t0, 1)
+    for k in ("multi_impl_cpu", "multi_model_cpu"):
+        timing[k] = round(timing.get(k, 0), 1)
+    cov.extra["multi_histories"] = tot
 
 
 # ================================================================ parse streams
@@ -2214,6 +2673,7 @@ def run(ctx):
     run_callback_stream(ctx, cov, viols)
     timing["extra_callback_wall"] = round(time.time() - t1, 1)
     run_notif_stream(ctx, cov, viols, timing)
+    run_world_stream(ctx, cov, viols, timing)
     run_sched_stream(ctx, cov, viols, timing)
     for k in ("sched_impl_cpu", "sched_model_cpu"):
         timing[k] = round(timing.get(k, 0), 1)
@@ -2275,6 +2735,13 @@ def replay(ctx):
             cov.case(repr(evs), True, sample=dict(events=v["events"], impl=i, model=m, endpoints=ee[0]))
             for key, what, found in classify(kind, evs, i, m, ee[0]):
                 viols.append(violation(key, what, found, stream="sched", kind=kind, events=v["events"], impl=i, model=m))
+    elif v.get("stream") == "multi" and v.get("events"):
+        evs = [tuple(e) for e in v["events"]]
+        impl, models, cl = world_probe(v["world"], evs, ctx["driver"])
+        cov.case(repr(evs), True, sample=dict(world=v["world"], events=v["events"], impl=[x[0] for x in impl], model=models))
+        for key, what, found, c in cl:
+            viols.append(violation(key, what, found, stream="multi", world=v["world"], events=v["events"], impl=[x[0] for x in impl],
+                                   discovery_contents=[x[1] for x in impl], model=models))
     elif v.get("stream") == "notif" and v.get("history"):
         h, (out, models) = n_replay(v)
         cov.case(repr(v["history"]), True, sample=dict(history=v["history"], impl=out))
